@@ -522,6 +522,9 @@ class RsInterp:
     def mcall_hook(self, recv: Any, m: str, args: list, env: dict, e: dict) -> Any:
         return NotImplemented
 
+    def call_hook(self, path: str, args: list, env: dict, e: dict) -> Any:
+        return NotImplemented
+
     def call(self, qual: str, args: list) -> Any:
         fn = self.prog.fns.get((self.rel, qual))
         if fn is None:
@@ -676,6 +679,9 @@ class RsInterp:
             if f.get("k") == "path":
                 p = f["p"]
                 args = [self.ev(a, env) for a in e["args"]]
+                hooked = self.call_hook(p, args, env, e)
+                if hooked is not NotImplemented:
+                    return hooked
                 if p == "Some":
                     return ("some", args[0])
                 if p.startswith("Self::") or (self.rel, p) in self.prog.fns:
@@ -734,5 +740,10 @@ class RsInterp:
             raise NotConst("field access")
         if k == "assign" and e["l"].get("k") == "path":
             env[e["l"]["p"]] = self.ev(e["r"], env)
+            return None
+        if k == "opassign" and e["l"].get("k") == "path":
+            a, b = env[e["l"]["p"]], self.ev(e["r"], env)
+            env[e["l"]["p"]] = {"+": lambda: a + b, "-": lambda: a - b, "&": lambda: a & b, "|": lambda: a | b, "^": lambda: a ^ b,
+                                "<<": lambda: a << b, ">>": lambda: a >> b, "*": lambda: a * b}[e["op"]]()
             return None
         raise NotConst(f"expr {k}")
